@@ -59,7 +59,7 @@ func scratchFile(ext string) string {
 }
 
 func cleanupScratch() {
-	if tmpDir != "" {
+	if tmpDir != "" && os.Getenv("VERIF_KEEP_QUERIES") == "" {
 		os.RemoveAll(tmpDir)
 	}
 }
@@ -67,7 +67,9 @@ func cleanupScratch() {
 func runSolver(ctx context.Context, s solverSpec, query string, timeoutS, seed int) SolveResult {
 	f := scratchFile(".smt2")
 	os.WriteFile(f, []byte(s.prep(query)), 0o644)
-	defer os.Remove(f)
+	if os.Getenv("VERIF_KEEP_QUERIES") == "" {
+		defer os.Remove(f)
+	}
 	args := s.cmd(f, timeoutS, seed)
 	cctx, cancel := context.WithTimeout(ctx, time.Duration(timeoutS+2)*time.Second)
 	defer cancel()
